@@ -178,6 +178,28 @@ func c16Combine(c *core.Ctx, n, nilMask, pre int, order []int, custom bool) {
 		}
 	}
 	res := bigbuff.CombineContext(ins[0].ctx, others...)
+	// the caller reuses its slice for a second call: the positions it filled get fresh contexts, the positions it left
+	// nil it leaves alone. The second result has nothing to do with the first call's others: cancelling those (the
+	// steps below do) must not cancel it.
+	var res2 context.Context
+	var fresh []*c16Input
+	if nilMask != 0 {
+		for i := range others {
+			if !ins[i+1].isNil { // (decided by what the caller put there, not by what the slice holds now)
+				in := c16MakeInput(10+i, false, ctxKey(fmt.Sprintf("r%d", i)))
+				fresh = append(fresh, in)
+				others[i] = in.ctx
+			}
+		}
+		p2 := c16MakeInput(9, false, "p2")
+		fresh = append(fresh, p2)
+		res2 = bigbuff.CombineContext(p2.ctx, others...)
+		defer func() {
+			for _, in := range fresh {
+				in.cancel()
+			}
+		}()
+	}
 	defer func() {
 		for _, in := range ins {
 			if !in.isNil {
@@ -207,6 +229,19 @@ func c16Combine(c *core.Ctx, n, nilMask, pre int, order []int, custom bool) {
 		time.Sleep(200 * time.Microsecond)
 		if res.Err() != nil {
 			c.Violate("combine-cancelled-early", "no input was ever cancelled but the result got cancelled; %s", desc)
+		}
+	}
+	if res2 != nil {
+		if len(order) > 0 {
+			time.Sleep(200 * time.Microsecond)
+		}
+		if res2.Err() != nil {
+			c.Violate("combine-cancelled-early", "a second CombineContext call, made with the same variadic slice after its non-nil entries had been replaced, was cancelled although none of ITS inputs is (only contexts of the first call were cancelled); %s", desc)
+		} else if len(fresh) > 1 {
+			fresh[0].cancel()
+			if !awaitCtx(res2) {
+				c.Violate("combine-not-cancelled", "second call with the reused slice: an other was cancelled but the result is still live; %s", desc)
+			}
 		}
 	}
 }
